@@ -224,6 +224,12 @@ pub fn c16(ctx: &mut Ctx, acc: &mut Acc) -> i32 {
                         t[f / 8] ^= 1 << (f % 8);
                         judge_corrupted(acc, "bitflip", &t);
                     }
+                    // the first bytes of the deflate stream (block header / stored-block length): corruption that stops inflation early
+                    for bit in 0..(32.min((frame.len() - header.len()) * 8)) {
+                        let mut t = frame.clone();
+                        t[header.len() + bit / 8] ^= 1 << (bit % 8);
+                        judge_corrupted(acc, "deflate_header_flip", &t);
+                    }
                     // header rewrites
                     for (which, old) in [(0usize, data.len() as u64), (1usize, clen as u64)] {
                         for new in [0u64, old.saturating_sub(1), old + 1, old * 2, u32::MAX as u64, 1 << 31, 4_000_000_000] {
